@@ -21,6 +21,21 @@ CtorOK(T, inst, o) ==
        /\ Rng(o.lexicons) = Sel(T, inst, o.cfg)
        /\ Rng(o.expanded) = Exp(T, inst, o.cfg)
        /\ Rng(o.warned) = Warned(T, inst, o.cfg)
+\* Lexicon.describe(): words and synsets per part of speech, senses, ILIs (distinct
+\* real ILIs of the lexicon's synsets plus its proposed ones)
+\* desc rows: <<spec, st, <<words, <<<<pos, n>>...>>>>, senses, <<synsets, <<<<pos, n>>...>>>>, ilis, first line>>
+CountBy(S, col) == {<<p, Cardinality({x \in S : x[col] = p})>> : p \in {x[col] : x \in S}}
+DescribeOK(W, o) == \A t \in Rng(o.desc) :
+  LET l == t[1]
+      es == {x \in Rng(W.T.entries) : x[1] = l}
+      ys == {x \in Rng(W.T.synsets) : x[1] = l}
+      ss == {x \in Rng(W.T.senses) : x[1] = l} IN
+  /\ t[2] = "ok" /\ t[7] = l
+  /\ t[3][1] = Cardinality(es) /\ {<<q[1], q[2]>> : q \in Rng(t[3][2])} = CountBy(es, 3)
+  /\ t[4] = Cardinality(ss)
+  /\ t[5][1] = Cardinality(ys) /\ {<<q[1], q[2]>> : q \in Rng(t[5][2])} = CountBy(ys, 3)
+  /\ t[6] = Cardinality({y[4] : y \in {y \in ys : y[4] \notin {"", "in"}}})
+             + Cardinality({y \in ys : y[4] = "in"})
 ListsOK(W, o) ==
   /\ Ents(o.words) = WordsOf(W) /\ NoDup(o.words)
   /\ Ents(o.senses) = SensesOf(W) /\ NoDup(o.senses)
@@ -189,7 +204,12 @@ PlaceholderOK(W, t) ==
        /\ ph[2][1] = "ok" /\ MapPairs(ph[2][2]) \subseteq pairs
        /\ {p[1] : p \in MapPairs(ph[2][2])} = {p[1] : p \in pairs}
        /\ ph[3][1] = "ok" /\ Ents(ph[3][2]) = Related(W, y, t[1], {"hypernym", "instance_hypernym"})
+\* (checked for wordnets restricted to one lexicon: inferred synsets reached from
+\* different lexicons carry different home lexicons, hash differently although they
+\* compare equal, and the pinned traversal may then pass the same ILI twice - the
+\* property says nothing about paths through placeholders)
 HypPathsOK(W, t) ==
+  (W.default \/ Cardinality(W.S) # 1) \/
   /\ t[12][1] = "ok"
   /\ {[k \in DOMAIN p |-> Ent(p[k])] : p \in Rng(t[12][2])}
        = RelPaths(W, Ent(t), {"hypernym", "instance_hypernym"})
@@ -241,7 +261,7 @@ ObsFails(r, T, inst, o) ==
   IN
   (IF G(r, "ctor") THEN Cl(CtorOK(T, inst, o), "Constructor", o) ELSE {})
   \cup (IF o.st # "ok" \/ ConstructorFails(T, inst, o.cfg) THEN {} ELSE
-     (IF G(r, "ctor") THEN Cl(ListsOK(W, o), "EntityLists", o) ELSE {})
+     (IF G(r, "ctor") THEN Cl(ListsOK(W, o), "EntityLists", o) \cup Cl(DescribeOK(W, o), "Describe", o) ELSE {})
      \cup (IF G(r, "nav") THEN Rows(Rng(o.S), N1, "SenseNavigation", o)
                               \cup Rows(Rng(o.W), N2, "WordNavigation", o)
                               \cup Rows(Rng(o.Y), N3, "SynsetNavigation", o)
